@@ -3,7 +3,7 @@
 From Coq Require Import ZArith List Bool Ascii String Lia.
 From Hermes Require Import Util Num DateModel CropParamModel CropParamProofs SoilModel.
 Import ListNotations.
-Open Scope Z_scope.
+Local Open Scope Z_scope.
 
 (* ------------------------------------------------------------------ *)
 (* trimming padded texts *)
